@@ -191,7 +191,8 @@ def run_selftest(prop, seed=0):
             if hit:
                 out["mutants_detected"] += 1
                 out["detected"].append({"id": m["id"], "fired": hit[:3]})
-            elif any("defined after the rules were written" in e for e in errors):
+            elif any("defined after the rules were written" in e or "differs from the source the rules were written against" in e
+                     or "an expression spelt differently" in e for e in errors):
                 # the edited code relies on definitions the rules do not know (a refactored-then-broken variant): the check
                 # fails closed (exit 2) instead of naming a violation — counted apart, not as a miss
                 out["fail_closed"] = out.get("fail_closed", 0) + 1
